@@ -205,6 +205,16 @@ def rule_next_only(ctx):
     ok = "mutate" in tab.get(("=",), set()) and "mutate" not in tab.get(("!=",), {"mutate"})
     ctx.ob(R, "append only the next block", ok, "mutation unreachable unless queued.next() == block.number()" if ok else
            "try_push can mutate the store for a block that is not the next one: %s" % {k: sorted(v) for k, v in tab.items()}, f.loc())
+    # ... and the next block IS appended: when the numbers match, no return is reachable with the three mutations (last,
+    # push_back) skipped - an additional condition would refuse the block the store is waiting for (nothing else is ever
+    # accepted for that number: the queue stalls for good)
+    if ok:
+        pb = frozenset(c["bb"] for c in T.calls() if c["q"].endswith("VecDeque::push_back"))
+        cfg0 = ctx.cfg(f, with_cancel=False)
+        r = W.reachable({"cmp(queued.next(),block.number())": "="}, 0, pb)
+        leak = r & set(cfg0.returns())
+        ctx.ob(R, "the next block is always appended", not leak, "with queued.next() == block.number() every return of try_push has appended the block" if not leak else
+               "try_push can return without appending the block although it is the next one (an additional condition): the store never accepts that number", f.loc())
     # terms
     okl = False
     for bb in range(len(f.blocks)):
